@@ -998,7 +998,7 @@ theorem runCmd_distinct (c : Ctx) (s : State) (conn ref : Nat) (m : Bool) (cmd :
     · exact hs
     · exact dinv_of_getDb_eq s _ hs (fun r => getDb_setSession _ _ _ r)
   case ping o => cases o <;> exact hs
-  case dbsize => simp only [runCmd]; split <;> exact hs
+  case dbsize => simp only [runCmd]; exact hs
   all_goals
     simp only [runCmd]
     first
